@@ -188,6 +188,19 @@ impl Prop for C02 {
         Some((out, tags))
     }
 
+    fn canon(&mut self, input: &Val) -> Option<Val> {
+        let l = input.as_l()?;
+        if l.len() != 6 {
+            return None;
+        }
+        let maxv = match l[1].as_l()? {
+            [] => Val::L(vec![]),
+            [x, ..] => Val::L(vec![Val::I(x.as_i()?.max(0))]),
+        };
+        let strs_v = |v: &Val| -> Option<Val> { Some(Val::L(v.as_l()?.iter().map(canon_text).collect::<Option<Vec<_>>>()?)) };
+        Some(Val::L(vec![canon_table(&l[0])?, maxv, strs_v(&l[2])?, strs_v(&l[3])?, strs_v(&l[4])?, canon_text(&l[5])?]))
+    }
+
     fn selfcheck(&mut self) -> Vec<String> {
         let mut e = ws_table_selfcheck();
         e.extend(regex_ws_selfcheck());
